@@ -418,6 +418,17 @@ func (s *sess) doWrite(st *simkit.Step) {
 		s.lastOp += " write-through"
 	}
 	pb := want.pbEntry(ext)
+	if st.Int("bothforms") == 1 && len(pb.Chunks) > 0 {
+		// a client that read the entry back (both id forms are set then) and changed the string ids before
+		// writing it again: the string is what GetFileIdString(), and so every reader, takes as the chunk's id
+		for _, c := range pb.Chunks {
+			c.Fid = &filer_pb.FileId{VolumeId: 61, FileKey: 0x5151, Cookie: 0x1f1f1f1f}
+			if c.SourceFileId != "" {
+				c.SourceFid = &filer_pb.FileId{VolumeId: 62, FileKey: 0x5252, Cookie: 0x2e2e2e2e}
+			}
+		}
+		s.r.Probe("chunk-written-with-both-id-forms")
+	}
 	if s.gc != nil {
 		s.gc.requested = true
 	}
